@@ -96,6 +96,30 @@ func (ex *Exec) doDeferred(d *ssa.Defer) {
 func (ex *Exec) doCall(in *ssa.Call) {
 	r := ex.callCommon(&in.Call, in, in.Pos())
 	if r != nil {
+		root := ex
+		for root.parent != nil {
+			root = root.parent
+		}
+		if root.ct != nil && len(root.ct.Asserts) > 0 {
+			cc := &in.Call
+			var nm string
+			switch {
+			case cc.IsInvoke():
+				nm = cc.Method.FullName()
+			case cc.StaticCallee() != nil:
+				nm = cc.StaticCallee().String()
+			default:
+				nm = exprName(cc.Value)
+			}
+			for _, a := range root.ct.Asserts {
+				if calleeMatches(nm, a.Name) {
+					if root.lastResult == nil {
+						root.lastResult = map[string]Val{}
+					}
+					root.lastResult[a.Name] = *r
+				}
+			}
+		}
 		if len(r.Tuple) == 0 && r.T.S != "" && r.Loc == nil {
 			r.T = ex.c.define(ex.fnPrefix()+in.Name(), r.T)
 		}
